@@ -63,7 +63,10 @@ def eval_case(case):
     # params with a known generator p = [gamma]G2 and sp = [s]p computed by the library from the master scalar
     Pp = ref.pt_mul(ref.G2_GEN, gamma, 2)
     params = L.buf(L.size["lq_params"])
-    p_native = L.proj(Pp, 2)
+    # every second case hands the generator over in a non-normalised Jacobian representation (parameters assembled with the raw group
+    # interface - a distributed key generation, say - are not normalised; sp below never is)
+    zz = alpha.fillers(seed, "c16z", 2, ref.q)
+    p_native = L.proj(Pp, 2, z=(zz[0], zz[1])) if (s + n) % 2 else L.proj(Pp, 2)
     msk = L.buf(L.size["lq_masterkey"], L.bi(s, 256))
     if case.get("via_unmarshal"):
         msk = L.buf(L.size["lq_masterkey"], b"\xCD" * L.size["lq_masterkey"])
@@ -90,9 +93,10 @@ def eval_case(case):
 
     def answer(k):
         reqs.append(k)
-        if k != 8 or len(reqs) > 300:
+        if len(reqs) > 300:
             return b"\0" * k
-        return next(stream, default).to_bytes(8, "little")
+        # requests of another size than the digit protocol's 8 bytes are served from the same stream, 8 bytes at a time
+        return b"".join(next(stream, default).to_bytes(8, "little") for _ in range((k + 7) // 8))[:k]
     rng = L.rng(answer)
     ct = L.buf(L.size["lq_ciphertext"])
     sym_e = ctypes.create_string_buffer(b"\x5C" * (n + 32), n + 32)
@@ -124,7 +128,8 @@ def eval_case(case):
     if de != exp:
         msgs.append("encrypt's hash input is not compress(Q_id)||compress(rP)||e(sQ_id,rP)")
     cs, y, used = c07.model_sampling(answers, default)
-    if case.get("python"):
+    # (the model of which y a stream yields is the digit protocol's; another way of drawing the exponent is held to everything above)
+    if case.get("python") and all(k == 8 for k in reqs):
         RP = ref.pt_mul(Pp, y, 2)
         if L.unaff(rp_aff, 2) != RP:
             msgs.append("ciphertext is not [y]P for the y drawn from the random stream")
